@@ -191,6 +191,35 @@ def run(ctx) -> None:
             ctx.count("attenuated.calls")
             ctx.count("attenuated.sampling_step_history_calls")
             ctx.case(f"history|{kind}|{axis}|{'second' if tt is pair[1][0] else 'first'}")
+    # history: live buffers (the same ndarray / Series objects) refreshed in place between two calls with the same window
+    # parameters -- each call grades what the buffers hold at that moment
+    import pandas as pd  # noqa: PLC0415
+
+    for _ in range(ctx.pick(80, 400)):
+        n = rng.choice([5, 8, 12])
+        tt = gen.regular(n, 60)
+        kind = rng.choice(["std", "range"])
+        per = rng.choice([120, 180, 300])
+        extra = rng.choice([{"min_obs": 2}, {"min_period": 120}, {}])
+        xs1 = gen.series(rng, n, pmiss=0.0, kind="noise")
+        xs2 = rng.choice([[4.0] * n, [v + (0.0 if k % 2 else 5.0) for k, v in enumerate(xs1)], xs1[::-1]])
+        holder = rng.choice(["ndarray", "series"])
+        buf = np.array(xs1, dtype=float) if holder == "ndarray" else pd.Series(np.array(xs1, dtype=float))
+        tbuf = gen.times(tt) if holder == "ndarray" else pd.Series(gen.times(tt))
+        kw = {"inp": buf, "tinp": tbuf, "suspect_threshold": 1.0, "fail_threshold": 0.25, "test_period": per, "check_type": kind, **extra}
+        for step, xs_ in (("first", xs1), ("after in-place refresh", xs2)):
+            if step != "first":
+                if holder == "ndarray":
+                    buf[:] = xs_
+                else:
+                    buf.iloc[:] = xs_
+            client.expect(ctx, "C12", "qartod.attenuated_signal_test", kw,
+                          lambda: models.attenuated(xs_, tt, 1.0, 0.25, per, extra.get("min_obs"), extra.get("min_period"), kind),
+                          logical={"x": xs_, "t": "regular 60 s", "test_period": per, "check_type": kind, **extra, "holder": holder,
+                                   "note": step + " (same array objects in both calls)"}, hist=f"attenuated.{kind}")
+            ctx.count("attenuated.calls")
+            ctx.count("attenuated.live_buffer_history_calls")
+        ctx.case(f"live-buffer|{holder}|{kind}|{sorted(extra)}")
     # whole-number observations in every integer dtype (raw counts): the spread of the series is a number, whatever the
     # storage width (max - min of int8 data may exceed 127, a uint8 difference never wraps)
     for _ in range(ctx.pick(80, 400)):
